@@ -262,15 +262,22 @@ where
 
 /// Holds the previous value for comparison.
 #[derive(Deref, DerefMut, Tid)]
-struct Previous<T: 'static>(Option<T>);
+struct Previous<L: AnyLens + 'static>(
+    #[deref]
+    #[deref_mut]
+    Option<L::Target>,
+    std::marker::PhantomData<fn() -> L>,
+)
+where
+    L::Target: 'static;
 
-impl<T> Default for Previous<T> {
+impl<L: AnyLens> Default for Previous<L> {
     fn default() -> Self {
-        Self(None)
+        Self(None, std::marker::PhantomData)
     }
 }
 
-impl<T: Send> CustomState<'_> for Previous<T> {}
+impl<L: AnyLens> CustomState<'_> for Previous<L> where L::Target: Send {}
 
 /// Checks if two values of type `&T` are equal using some measure.
 ///
@@ -414,13 +421,13 @@ where
     L::Target: Clone + Send,
 {
     fn init(&self, _problem: &P, state: &mut State<P>) -> ExecResult<()> {
-        state.insert(Previous::<L::Target>::default());
+        state.insert(Previous::<L>::default());
         Ok(())
     }
 
     fn evaluate(&self, problem: &P, state: &mut State<P>) -> ExecResult<bool> {
         let current = self.lens.get_ref(problem, state)?;
-        let mut previous = state.try_borrow_value_mut::<Previous<L::Target>>()?;
+        let mut previous = state.try_borrow_value_mut::<Previous<L>>()?;
 
         let changed = if let Some(previous) = &*previous {
             !self.checker.eq(&*current, previous)
